@@ -316,36 +316,88 @@ def _returned_array_len(cb):
     return None
 
 
-def _const_param(ctx, b, tr, op, label):
-    """The operand is a parameter of b: every workspace call site passes a constant."""
+def _closure_sites(ctx, path):
+    """[(body, closure aggregate rvalue)] for every place the workspace builds the closure `path`."""
+    f = ctx.facts
+    idx = getattr(f, '_closure_sites', None)
+    if idx is None:
+        idx = {}
+        for cb in f.bodies.values():
+            for bb in cb.blocks:
+                for st in bb['stmts']:
+                    if st['s'] == 'assign' and st['rv'].get('r') == 'aggr' and st['rv'].get('agg') == 'closure':
+                        idx.setdefault(f.norm(st['rv']['closure']), []).append((cb, st['rv']))
+        f._closure_sites = idx
+    return idx.get(ctx.facts.norm(path), [])
+
+
+def _const_values(ctx, b, tr, op, depth=0):
+    """All values an operand can take if they are all compile-time constants ([ints]), else a string saying why not.
+    Follows parameters to every workspace call site and closure captures to every place the closure is built."""
     f, cg = ctx.facts, ctx.cg
+    if depth > 6:
+        return 'constant chase too deep'
     o = tr.origin(op)
-    if o['o'] != 'arg':
-        return 'violation', label, 'operand is not a parameter'
-    pi = o['l'] - 1
-    vals = []
-    for k, s in cg.callers_of(lambda n: n == b.path):
-        cb = f.bodies[k]
-        if s['how'] != 'call':
-            continue
-        t = cb.blocks[s['bb']]['term']
-        if len(t['args']) <= pi:
-            continue
-        ct = Tracer(cb)
-        a = ct.origin(t['args'][pi])
-        if a['o'] == 'const':
-            vals.append(const_value(a['c']))
-        else:
-            # a local assigned only constants
-            d = Defs(cb)
-            ds = d.of(a.get('l', -1)) if a['o'] == 'local' else []
-            cs = [const_value(x[3]['a']) for x in ds if x[2] == 'assign' and x[3]['r'] == 'use' and x[3]['a'].get('k') == 'const']
-            if ds and len(cs) == len(ds):
-                vals.extend(cs)
+    if o['o'] == 'const':
+        v = const_value(o['c'])
+        return [v] if isinstance(v, int) else 'non-integer constant'
+    if o['o'] == 'local' and not o['p']:
+        ds = tr.defs.of(o['l'])
+        vals = []
+        for x in ds:
+            if x[2] == 'assign' and x[3]['r'] == 'use':
+                r = _const_values(ctx, b, tr, x[3]['a'], depth + 1) if not (x[3]['a'].get('l') == o['l']) else []
+                if isinstance(r, str):
+                    return r
+                vals += r
             else:
-                return 'violation', label, 'a caller (%s) passes a non-constant value' % cb.path
+                return 'local _%d is computed' % o['l']
+        return vals if ds else 'no definition'
+    if o['o'] == 'arg' and b.is_closure and o['l'] == 1:
+        # a captured variable: (*env).k [deref if captured by reference]
+        fields = [e for e in o['p'] if isinstance(e, dict) and 'f' in e]
+        if len(fields) != 1:
+            return 'capture path not understood'
+        k = fields[0]['f']
+        sites = _closure_sites(ctx, b.path)
+        if not sites:
+            return 'closure construction site not found'
+        vals = []
+        for cb, rv in sites:
+            if k >= len(rv['ops']):
+                return 'capture index out of range'
+            r = _const_values(ctx, cb, Tracer(cb), rv['ops'][k], depth + 1)
+            if isinstance(r, str):
+                return r
+            vals += r
+        return vals
+    if o['o'] == 'arg' and not o['p']:
+        pi = o['l'] - 1
+        vals = []
+        n = 0
+        for k, s in cg.callers_of(lambda n: n == b.path):
+            cb = f.bodies[k]
+            if s['how'] != 'call':
+                continue
+            t = cb.blocks[s['bb']]['term']
+            if len(t['args']) <= pi:
+                continue
+            n += 1
+            r = _const_values(ctx, cb, Tracer(cb), t['args'][pi], depth + 1)
+            if isinstance(r, str):
+                return 'a caller (%s) passes a non-constant value (%s)' % (cb.path, r)
+            vals += r
+        return vals if n else 'no call sites found'
+    return 'operand is %s' % o['o']
+
+
+def _const_param(ctx, b, tr, op, label):
+    """The operand only ever holds small compile-time constants (through parameters, captures and constant locals)."""
+    vals = _const_values(ctx, b, tr, op)
+    if isinstance(vals, str):
+        return 'violation', label, vals
     if vals and all(isinstance(v, int) and -2 ** 62 < v < 2 ** 62 for v in vals):
-        return 'discharged', label + '-const-args', 'all %d workspace call sites pass constants %s' % (len(vals), sorted(set(vals)))
+        return 'discharged', label + '-const-args', 'every value reaching the operand is a constant: %s' % sorted(set(vals))
     return 'violation', label, 'no call sites found / non-constant argument'
 
 
